@@ -172,6 +172,20 @@ def r3_cache_filled_from_current_tables(ctx):
                 else:
                     why = f"cached value `{P.un(v.args[1])}` is not derived from self._methods under the lock"
             ctx.ob("C18.R3", inst, MF, s.lineno, ok, why)
+    # the reset stores the cache too: every caller of a function that stores to self._cache without
+    # taking the lock itself must hold the lock -- otherwise a reset can slip in between a locked
+    # search against the old hierarchy and its store, and the stale answer lands in the fresh cache
+    unlocked_storers = {m.name for m in P.all_methods(cls) if m.name != "__init__"
+                        and any(a == "_cache" and not P.under_lock(s, LOCK, stop=m) for s, a in P.self_attr_stores(m))}
+    for m in P.all_methods(cls):
+        for c in P.calls(m):
+            f = P.un(c.func)
+            if f.startswith("self.") and f[5:] in unlocked_storers:
+                ok = P.under_lock(c, LOCK, stop=m) or m.name == "__init__"
+                n_before = sum(1 for c2 in P.calls(m) if P.un(c2.func) == f and c2.lineno < c.lineno)
+                ctx.ob("C18.R3", f"{MF}::MultiFunction.{m.name}::{f}() #{n_before} is called with the lock held", MF, c.lineno, ok,
+                       "" if ok else f"`{f}()` replaces the cache without the lock: a search that is still running (under the lock) against the previous hierarchy stores its answer afterwards, into the cache that now stands for the new hierarchy -- the stale method is served from then on",
+                       witness="thread A resolves (mm ::x) under x->p1, the hierarchy becomes x->p2, thread B calls the multimethod, A stores: (mm ::x) runs the p1 method for ever")
 
 
 @rule("C18.R4", floor=4)
@@ -787,6 +801,8 @@ def r7_isa_ancestors_default_shapes(ctx):
 
 
 SELFTEST = [
+    {"name": "cache reset for a new hierarchy without the lock (the repaired defect)", "file": MF, "expect": "C18.R3",
+     "old": "            with self._lock:\n                self._reset_cache()\n", "new": "            self._reset_cache()\n"},
     {"name": "isa? walks vectors of different lengths (the repaired defect)", "file": CORE, "expect": "C18.R7",
      "old": "            (= (count tag) (count parent))\n", "new": ""},
     {"name": "twin: isa? compares the lengths the other way round", "file": CORE, "expect": None,
